@@ -49,6 +49,7 @@ func load() *replayFile {
 // SetValues installs replay values programmatically (used by the replay driver for batches).
 func SetValues(harness, tier string, values map[string]interface{}) {
 	drawMode = 0
+	symSeeds = map[int64]bool{}
 	rf = &replayFile{Harness: harness, Tier: tier, Values: values}
 	failed = nil
 	reached = map[string]bool{}
@@ -197,6 +198,12 @@ var drawMode int
 // arithmetic intractable and only the structure of the computation matters).
 func SetDrawMode(k int) { drawMode = k }
 
+var symSeeds = map[int64]bool{}
+
+// SymbolicSeed keeps the draws of generators created with this seed free values even under a
+// fixed draw pattern (e.g. the shuffle of one bias explored exhaustively, everything else fixed).
+func SymbolicSeed(seed int64) { symSeeds[seed] = true }
+
 func concreteDraw(mode int, seed int64, k int) float64 {
 	if mode == 1 {
 		return float64((seed*7+int64(k)*13)%8) / 8
@@ -215,7 +222,7 @@ func Generators(seed int64) func() float64 {
 			}
 			return real.Float64()
 		}
-		if drawMode > 0 {
+		if drawMode > 0 && !symSeeds[seed] {
 			k++
 			return concreteDraw(drawMode, seed, k-1)
 		}
